@@ -22,6 +22,7 @@ Obs(r) ==
   /\ ret = [p \in P |-> <<>>] /\ reg = [p \in P |-> NoReg] /\ ip = [p \in P |-> 1] /\ tctx = [p \in P |-> <<>>]
   /\ ug = [p \in P |-> r.thr[p].ug] /\ inst = [p \in P |-> r.thr[p].inst]
   /\ act = [k \in Task |-> IF k > NTk(r) THEN {} ELSE {<<r.task[k].act[i][1], r.task[k].act[i][2]>> : i \in 1..Len(r.task[k].act)}]
+  /\ dep = [k \in Task |-> 0]
   /\ st = [k \in Task |-> IF k > NTk(r) THEN "new" ELSE r.task[k].st]
   /\ ran = [k \in Task |-> IF k > NTk(r) THEN 0 ELSE r.task[k].ran]
 ObsP(r) ==
@@ -34,6 +35,7 @@ ObsP(r) ==
   /\ ret' = [p \in P |-> <<>>] /\ reg' = [p \in P |-> NoReg] /\ ip' = [p \in P |-> 1] /\ tctx' = [p \in P |-> <<>>]
   /\ ug' = [p \in P |-> r.thr[p].ug] /\ inst' = [p \in P |-> r.thr[p].inst]
   /\ act' = [k \in Task |-> IF k > NTk(r) THEN {} ELSE {<<r.task[k].act[i][1], r.task[k].act[i][2]>> : i \in 1..Len(r.task[k].act)}]
+  /\ dep' = [k \in Task |-> 0]
   /\ st' = [k \in Task |-> IF k > NTk(r) THEN "new" ELSE r.task[k].st]
   /\ ran' = [k \in Task |-> IF k > NTk(r) THEN 0 ELSE r.task[k].ran]
 TInit == l = 1 /\ Obs(Rec[1])
